@@ -5,6 +5,7 @@ package props
 import (
 	"fmt"
 	"math/big"
+	"strings"
 	"testing"
 	"time"
 
@@ -65,10 +66,16 @@ func (w *c15World) invariant() (string, string) {
 }
 
 func (w *c15World) init(acc chain.Account, ip string) (string, string) {
+	return w.initAs(acc, acc.Bech, ip)
+}
+
+// initAs registers with the creator address spelled as given (upper-case bech32 is the same account, but the chain keys
+// provider and collateral records by the string: the model does the same and still demands full backing).
+func (w *c15World) initAs(acc chain.Account, spelled, ip string) (string, string) {
 	price := w.c.App.StorageKeeper.GetParams(w.f.Ctx).CollateralPrice
 	before := w.f.Snapshot()
-	_, wasProvider := w.recorded[acc.Bech]
-	res := w.f.Exec(storagetypes.NewMsgInitProvider(acc.Bech, ip, 1_000_000, "kb"))
+	_, wasProvider := w.recorded[spelled]
+	res := w.f.Exec(storagetypes.NewMsgInitProvider(spelled, ip, 1_000_000, "kb"))
 	after := w.f.Snapshot()
 	w.logf("init by acc%d (price %d, balance %s) -> %s", acc.Index, price, before.Get(acc.Bech, "ujkl"), res)
 	diff := before.Diff(after)
@@ -85,15 +92,17 @@ func (w *c15World) init(acc chain.Account, ip string) (string, string) {
 		!after.Get(collateralAddr, "ujkl").Equal(before.Get(collateralAddr, "ujkl").AddRaw(price)) {
 		return "C15/init-debit", fmt.Sprintf("init at collateral price %d changed balances by %v", price, diff)
 	}
-	w.recorded[acc.Bech] = price
-	w.priceChangedSince[acc.Bech] = false
+	w.recorded[spelled] = price
+	w.priceChangedSince[spelled] = false
 	return "", ""
 }
 
-func (w *c15World) shutdown(acc chain.Account) (string, string) {
+func (w *c15World) shutdown(acc chain.Account) (string, string) { return w.shutdownAs(acc, acc.Bech) }
+
+func (w *c15World) shutdownAs(acc chain.Account, spelled string) (string, string) {
 	before := w.f.Snapshot()
-	amount, was := w.recorded[acc.Bech]
-	res := w.f.Exec(storagetypes.NewMsgShutdownProvider(acc.Bech))
+	amount, was := w.recorded[spelled]
+	res := w.f.Exec(storagetypes.NewMsgShutdownProvider(spelled))
 	after := w.f.Snapshot()
 	w.logf("shutdown by acc%d (recorded %d, registered=%v) -> %s", acc.Index, amount, was, res)
 	diff := before.Diff(after)
@@ -116,16 +125,16 @@ func (w *c15World) shutdown(acc chain.Account) (string, string) {
 	if !after.Get(acc.Bech, "ujkl").Equal(before.Get(acc.Bech, "ujkl").AddRaw(amount)) || len(diff) != 2 {
 		return "C15/shutdown-refund", fmt.Sprintf("acc%d had %d recorded, shutdown changed balances by %v", acc.Index, amount, diff)
 	}
-	if _, found := w.c.App.StorageKeeper.GetProviders(w.f.Ctx, acc.Bech); found {
+	if _, found := w.c.App.StorageKeeper.GetProviders(w.f.Ctx, spelled); found {
 		return "C15/provider-remains", "provider record still present after shutdown"
 	}
-	if _, found := w.c.App.StorageKeeper.GetCollateral(w.f.Ctx, acc.Bech); found {
+	if _, found := w.c.App.StorageKeeper.GetCollateral(w.f.Ctx, spelled); found {
 		return "C15/collateral-record-remains", "collateral record still present after shutdown"
 	}
-	if w.priceChangedSince[acc.Bech] {
+	if w.priceChangedSince[spelled] {
 		w.shutdownAfterPriceChange = true
 	}
-	delete(w.recorded, acc.Bech)
+	delete(w.recorded, spelled)
 	return "", ""
 }
 
@@ -185,10 +194,19 @@ func TestC15(t *testing.T) {
 			"init": func(rt *rapid.T) {
 				a := chain.Acc(rapid.IntRange(0, 3).Draw(rt, "acc"))
 				ip := rapid.SampledFrom([]string{"https://a.example.com", "http://b.example.org:3333", "https://localhost"}).Draw(rt, "ip")
-				fail(w.init(a, ip))
+				if rapid.IntRange(0, 5).Draw(rt, "upperCaseCreator") == 0 {
+					fail(w.initAs(a, strings.ToUpper(a.Bech), ip))
+				} else {
+					fail(w.init(a, ip))
+				}
 			},
 			"shutdown": func(rt *rapid.T) {
-				fail(w.shutdown(chain.Acc(rapid.IntRange(0, 3).Draw(rt, "acc"))))
+				a := chain.Acc(rapid.IntRange(0, 3).Draw(rt, "acc"))
+				if rapid.IntRange(0, 5).Draw(rt, "upperCaseCreator") == 0 {
+					fail(w.shutdownAs(a, strings.ToUpper(a.Bech)))
+				} else {
+					fail(w.shutdown(a))
+				}
 			},
 			"price": func(rt *rapid.T) {
 				w.setPrice(rapid.SampledFrom([]int64{2, 3, 4_000, 9_999, 10_000, 10_001, 15_000, 29_999, 30_000, 30_001, 1_000_000}).Draw(rt, "price"))
